@@ -192,3 +192,30 @@ Definition k3_show2 (a : ast) (k : k3_kind) (off : N) (hex : string) : string :=
   | EOk md => k3_line md k off (bytes_of_hex hex)
   | _ => "NOGEN"
   end.
+
+(* ---------- C09: what the model says the allocator is asked for ---------- *)
+
+(* sizes : size_of::<T>() of every generated type, as printed by the runner *)
+Definition resv_bytes (sizes : list (string * N)) (r : resv) : N :=
+  match r with
+  | ResVec cap elem => match assoc elem sizes with Some s => cap * s | None => 0 end
+  | ResStr n => if (n =? 0)%N then 0 else N.max n 8     (* Vec<u8> minimum non-zero capacity *)
+  | ResBox ty => match assoc ty sizes with Some s => s | None => 0 end
+  end%N.
+
+Definition alloc_expected (md : module_ir) (sizes : list (string * N)) (ty : string) (off : N)
+           (bs : bytes) : N :=
+  fold_left N.add (map (resv_bytes sizes) (ledger_of md ty off bs)) 0%N.
+
+(* cases: (index, type, offset, hex, bytes the real allocator was asked for) *)
+Definition k3a_run (a : ast) (sizes : list (string * N))
+           (cases : list (N * string * N * string * N)) : list N :=
+  match gen a with
+  | EOk md =>
+    flat_map (fun c => match c with
+                       | (i, ty, off, hex, real) =>
+                         if (alloc_expected md sizes ty off (bytes_of_hex hex) =? real)%N
+                         then [] else [i]
+                       end) cases
+  | _ => map (fun c => fst (fst (fst (fst c)))) cases
+  end.
